@@ -88,8 +88,10 @@ static int pv_sign_common(jwt_t *jwt, char **out, unsigned int *len, const char 
 	pv_s_str = str;
 	pv_s_len = str_len;
 	pv_s_ok = 0;
+#ifdef PV_COPY_INPUT
 	for (i = 0; i < PV_STRMAX; i++)
 		pv_s_copy[i] = (i < str_len) ? str[i] : '\0';
+#endif
 
 	if (PV_BOOL()) {          /* provider failure */
 		*out = NULL;
